@@ -157,10 +157,19 @@ theorem dictInv_dotSet (T : Tables) (n : Str) (v : DotVal) {e : El} (h : DictInv
   · exact dictInv_setClassName _ h
   · split
     · exact h
-    · split
+    · next L _ =>
+      split
       · exact h
       · split
-        · exact dictInv_setAttribute _ _ _ h
+        · have h1 := dictInv_setAttribute T L.attr (some v.boolString) h
+          split
+          · next e' heq =>
+            rw [heq] at h1
+            dsimp only
+            rcases getAttribute_snd T L.attr PyVal.none e' with hg | hg <;> rw [hg]
+            · exact h1
+            · exact dictInv_handleClassAttr h1
+          · next r hne => exact h1
         · split
           · split
             · exact dictInv_setAttribute _ _ _ h
